@@ -340,7 +340,21 @@ class PathEmit:
                 b.zero.append(dict(v.form))
                 return [(True, a), (False, b)]
             if v is not None and v.kind == "int":
+                if not [k for k in v.form if k]:
+                    return [(bool(v.form.get("", 0)), s)]  # a known constant: 1 if <cond> else 0 tested later on the same path
                 a, b = s.fork(), s.fork()
+                a.conds.append(txt)
+                b.conds.append("not " + txt)
+                b.zero.append(dict(v.form))
+                return [(True, a), (False, b)]
+        if isinstance(e, ast.BinOp) and isinstance(e.op, (ast.Add, ast.Sub)):
+            # truthiness of an integer expression: false exactly when it is 0
+            vals = self.ev(e, s)
+            if len(vals) == 1 and vals[0][0].kind == "int":
+                v, s1 = vals[0]
+                if not [k for k in v.form if k]:
+                    return [(bool(v.form.get("", 0)), s1)]
+                a, b = s1.fork(), s1.fork()
                 a.conds.append(txt)
                 b.conds.append("not " + txt)
                 b.zero.append(dict(v.form))
